@@ -63,8 +63,8 @@ func (f *Frame) instr(b *ssa.BasicBlock, ins ssa.Instruction, st *State) {
 			}
 			g.arrElems[a.Ptr.Loc][a.Ptr.Idx] = v
 		}
-		if v.Term == "" && v.Ptr != nil && a.Ptr != nil && a.Ptr.Heap != "" {
-			// a static pointer stored into a local array (variadic interface arguments): only tracked statically
+		if v.Term == "" && v.Ptr != nil && a.Ptr != nil && a.Ptr.Heap == "HA_Iface" {
+			// a static pointer stored into a local interface array (variadic arguments): only tracked statically
 			return
 		}
 		f.storeVia(a, v, st, reach, x.Pos())
@@ -333,8 +333,21 @@ func (f *Frame) materialise(v Val, st *State) Val {
 	if a.Cell == nil || len(a.Path) != 0 {
 		g.fail("%s: cannot store the address of a field or element in the heap", f.fn.Name())
 	}
-	g.fail("%s: pointer to local %s escapes into the heap (unsupported)", f.fn.Name(), a.Cell.name)
-	return v
+	if e, ok := g.escaped[a.Cell]; ok {
+		return Val{Sort: "Int", Term: e[1], GoT: v.GoT}
+	}
+	cur := g.load(st, &Addr{Cell: a.Cell}, a.Cell.goT)
+	if cur.Term == "" {
+		g.fail("%s: pointer to local %s (holding a pointer) escapes into the heap (unsupported)", f.fn.Name(), a.Cell.name)
+	}
+	h := g.sorts.ptrHeap(cur.Sort)
+	loc := g.allocLoc(st)
+	g.heapSet(st, h, fmt.Sprintf("(store %s %s %s)", g.heapGet(st, h), loc, cur.Term))
+	if g.escaped == nil {
+		g.escaped = map[*Cell][2]string{}
+	}
+	g.escaped[a.Cell] = [2]string{h, loc}
+	return Val{Sort: "Int", Term: loc, GoT: v.GoT}
 }
 
 func (f *Frame) unop(x *ssa.UnOp, st *State, reach string) {
@@ -771,6 +784,7 @@ type loopInfo struct {
 	phiVals  map[*ssa.Phi]Val
 	havocked map[string]bool
 	havCells map[*Cell]bool
+	backConds []string // path conditions of the back edges (vacuity guard: some iteration must be able to complete)
 }
 
 
@@ -819,17 +833,22 @@ func (f *Frame) loopEnv(h *ssa.BasicBlock, st *State, phiOverride map[*ssa.Phi]V
 		}
 	}
 	// single-assignment locals defined in blocks that dominate the header (source names from debug refs)
-	for _, b := range f.fn.Blocks {
-		if !b.Dominates(h) || b == h {
-			continue
-		}
+	// The dominators are walked from the entry block down to the header, so that the value a re-assigned local
+	// holds when the loop is reached (its last dominating reference) wins over earlier ones.
+	var chain []*ssa.BasicBlock
+	for b := h.Idom(); b != nil; b = b.Idom() {
+		chain = append([]*ssa.BasicBlock{b}, chain...)
+	}
+	fromDbg := map[string]bool{}
+	for _, b := range chain {
 		for _, ins := range b.Instrs {
 			if dr, ok := ins.(*ssa.DebugRef); ok && !dr.IsAddr {
 				if id, ok := dr.Expr.(*ast.Ident); ok {
 					if v, ok := f.vals[dr.X]; ok {
-						if _, taken := env.vars[id.Name]; !taken {
+						if _, taken := env.vars[id.Name]; !taken || fromDbg[id.Name] {
 							if _, isCell := env.cellVars[id.Name]; !isCell {
 								env.vars[id.Name] = v
+								fromDbg[id.Name] = true
 							}
 						}
 					}
@@ -929,6 +948,12 @@ func (f *Frame) loopHeader(h *ssa.BasicBlock, st *State, reach string) (*State, 
 	li := &loopInfo{phiVals: map[*ssa.Phi]Val{}, havocked: map[string]bool{}, havCells: map[*Cell]bool{}}
 	f.loopInfos[h] = li
 	hs := st.clone()
+	// allocation counter only grows; values live at the loop head were allocated at or before its value there
+	oldAlloc := g.heapGet(st, "$alloc")
+	na := g.heapHavoc(hs, "$alloc")
+	g.assume(fmt.Sprintf("(>= %s %s)", na, oldAlloc))
+	g.allocBound = na
+	defer func() { g.allocBound = "" }()
 	for phi := range entryPhi {
 		nv := g.freshVal(f.name(phi)+"_loop", phi.Type(), hs)
 		f.vals[phi] = nv
@@ -941,6 +966,16 @@ func (f *Frame) loopHeader(h *ssa.BasicBlock, st *State, reach string) (*State, 
 			switch x := ins.(type) {
 			case *ssa.Store:
 				f.havocTarget(x.Addr, hs, li)
+				if _, isAlloc := x.Val.(*ssa.Alloc); isAlloc {
+					if _, toLocal := x.Addr.(*ssa.Alloc); !toLocal {
+						// a local object whose address is stored in the heap moves to the pointer heap of its type
+						if pt, ok := x.Val.Type().Underlying().(*types.Pointer); ok {
+							if _, isStruct := pt.Elem().Underlying().(*types.Struct); isStruct {
+								li.havocked[g.sorts.ptrHeap(g.sorts.sortOf(pt.Elem()))] = true
+							}
+						}
+					}
+				}
 			case *ssa.MapUpdate:
 				ms := g.sorts.sortOf(x.Map.Type())
 				hname, _ := g.sorts.mapHeap(ms)
@@ -986,10 +1021,7 @@ func (f *Frame) loopHeader(h *ssa.BasicBlock, st *State, reach string) (*State, 
 		}
 		hs.cells[c] = g.freshVal("c_"+c.name+"_loop", c.goT, hs)
 	}
-	// allocation counter only grows
-	oldAlloc := g.heapGet(st, "$alloc")
-	na := g.heapHavoc(hs, "$alloc")
-	g.assume(fmt.Sprintf("(>= %s %s)", na, oldAlloc))
+	g.allocBound = ""
 	li.hdrState = hs.clone()
 	li.preEntry = map[string]string{}
 	for _, pz := range spec.Preserves {
@@ -1116,6 +1148,7 @@ func (f *Frame) loopBackEdge(from, h *ssa.BasicBlock, cond string, st *State) {
 		g.fail("%s: back edge to a block that is not a processed loop header", relName(f.fn))
 	}
 	cond = g.defBool(fmt.Sprintf("%sback_%d_%d", f.prefix, from.Index, h.Index), cond)
+	li.backConds = append(li.backConds, cond)
 	// phi values along this edge
 	pv := map[*ssa.Phi]Val{}
 	for _, ins := range h.Instrs {
